@@ -565,8 +565,8 @@ def check_hist_stage_b(ctx, pool):
         insts = [dict(n=i['n'], k=i['k'], named=bool(i['named'])) for i in tlaval_seq(g.state[init]['insts'])]
         checks = [tuple(args) for a, args, _ in path]
         want = [bool(e['acc']) for e in tlaval_seq(g.state[path[-1][2]]['log'])]
-        # one verifier class per path (round robin), two in thorough; every class sees every pattern many times
-        for cls in [CHECK_CLASSES[(k + j) % 4] for j in range(ctx.pick(1, 2))]:
+        # one verifier class per path (round robin); every class sees every pattern many times
+        for cls in [CHECK_CLASSES[k % 4]]:
             h = run_check_history(ctx, cls, insts, checks, pool, 2, 2)
             got = [e['acc'] for e in h['ev']]
             if got != want:
